@@ -188,8 +188,22 @@ func registerTimeModels(e *Engine) {
 			x.setField(p, ut, "OmitHost", BoolC(u.OmitHost))
 			return TupleV{p, NilIface}
 		}
+		if parts, ok := x.urlParts[t.S]; ok && t.Op == "sym" {
+			// a URL the harness built from components (unambiguous alphabets)
+			x.setField(p, ut, "Scheme", parts[0])
+			x.setField(p, ut, "Host", parts[1])
+			x.setField(p, ut, "Path", parts[2])
+			x.setField(p, ut, "RawQuery", parts[3])
+			x.setField(p, ut, "Fragment", parts[4])
+			x.urlInfos[c] = &urlInfo{simple: true}
+			return TupleV{p, NilIface}
+		}
+		if x.attr(t, "badurl") {
+			return TupleV{NilPtr, x.libError("url.Parse")}
+		}
 		// symbolic text: the parser fails, or returns arbitrary components
 		// (the string -> components mapping is the library's and is not encoded)
+		x.unreplayable = append(x.unreplayable, "url.Parse of a string the harness did not build from components")
 		name := "urlparse(" + t.Key() + ")"
 		if !x.Branch(x.sym(name+".ok", SBool)) {
 			return TupleV{NilPtr, x.libError("url.Parse")}
@@ -211,6 +225,30 @@ func registerTimeModels(e *Engine) {
 			// no header values: no hosts, no error
 			return TupleV{&SliceV{}, NilIface}
 		}
+		// header values the harness built: "host=<token>" yields that host, text
+		// flagged as malformed yields an error
+		if sv, ok := vals.(*SliceV); ok {
+			var hosts []Value
+			shaped := true
+			for _, e := range x.sliceElems(sv) {
+				t := x.term(e)
+				ps := flatten(t)
+				switch {
+				case len(ps) == 2 && ps[0].IsConst() && ps[0].S == "host=":
+					hosts = append(hosts, ps[1])
+				case x.attr(t, "badforwarded"):
+					return TupleV{&SliceV{}, x.libError("httpforwarded")}
+				case t.IsConst() && t.S == "for=192.0.2.1":
+					// an element without host parameter
+				default:
+					shaped = false
+				}
+			}
+			if shaped {
+				return TupleV{x.makeSlice(hosts), NilIface}
+			}
+		}
+		x.unreplayable = append(x.unreplayable, "Forwarded header values the harness did not build")
 		if x.Branch(x.sym(name+".err", SBool)) {
 			return TupleV{&SliceV{}, x.libError("httpforwarded")}
 		}
